@@ -6,6 +6,8 @@ Line-protocol driver for C15.
   docs                           sorted list of the functions documented as concurrency safe (facts)
   doc <Fn>                       documented | undocumented
   race <Class> <field> <A> <B>   predicted | unpredicted   (model computed from the lock skeletons)
+  cover <Fn>                     covered | no-footprint     (documented / iterator method with a modelled lock footprint)
+  table <Fn>                     locks=… locs=…             (coverage table; used as a co-process, not compared)
   lin <G> <prog_1> … <prog_G> <final>
                                  ok <writes> | bad <writes>  (Spec: is there a sequential order, program
                                  order kept, whose last-writer-wins result is the observed final state?)
@@ -38,8 +40,27 @@ def linVerdict (progs : List (List Write)) (final : List (Nat × Nat)) : Bool :=
    | some order => Spec.explains progs final order
    | none => false)
 
+/-- mutex classes a call acquires, in order of first acquisition -/
+def locksOf (f : String) : List String :=
+  ((Impl.trace f).filterMap fun a => match a with | .acq l => some l | _ => none).eraseDups
+
+/-- location classes a call touches: name, r / w / rw, and `!` when some access is made without the guard -/
+def locsOf (f : String) : List String :=
+  let acc := accesses [] (Impl.trace f)
+  let names := (acc.map (·.1)).eraseDups
+  names.map fun x =>
+    let mine := acc.filter (fun a => a.1 == x)
+    let w := mine.any (·.2.1)
+    let r := mine.any (fun a => !a.2.1)
+    let u := mine.any (fun a => !a.2.2)
+    x.1 ++ "." ++ x.2 ++ ":" ++ (if r then "r" else "") ++ (if w then "w" else "") ++ (if u then "!" else "")
+
 def step (w : List String) : String :=
   match w with
+  | ["cover", fn] =>
+    if (Facts.C15.documented.contains fn || Facts.C15.iterMethods.contains fn) && !(locksOf fn).isEmpty
+    then "covered" else "no-footprint"
+  | ["table", fn] => "locks=" ++ ",".intercalate (locksOf fn) ++ " locs=" ++ ",".intercalate (locsOf fn)
   | ["docs"] => ",".intercalate Facts.C15.documented
   | ["doc", fn] => if Facts.C15.documented.contains fn then "documented" else "undocumented"
   | ["race", cls, fld, a, b] =>
